@@ -232,6 +232,36 @@ theorem lit_num {S ρ an sp n1 Y} (g : annOK S (.lit an sp) = true) (hn : an.num
   rw [nk] at h0
   exact ⟨by rw [nk, toI64_nonneg _ _ r h0], r⟩
 
+/-- value of `x & n1` / `n1 & x` for a number token with non-negative value n1 -/
+theorem band_node_val {S ρ a' x an sp e V n1}
+    (he : e = .bin a' .band x (.lit an sp) ∨ e = .bin a' .band (.lit an sp) x)
+    (g : annOK S e = true) (hnum : an.num = some n1) (hn1 : 0 ≤ n1) (hV : eval S ρ e = some V) :
+    ∃ p : Nat, V = ((p &&& n1.toNat : Nat) : Int) := by
+  rcases he with rfl | rfl
+  · obtain ⟨A, B, hA, hB, hv'⟩ := eval_bin_cop (by rfl) hV
+    obtain ⟨_, glit⟩ := annOK_bin g
+    obtain ⟨rfl, rB⟩ := lit_num glit hnum hn1 hB
+    simp only [evalBin, BinOp.isShift, Bool.false_eq_true, if_false, Option.some.injEq] at hv'
+    have hr := inRange_uac_nonneg_right (tyOf S x) (tyOf S (.lit an sp)) B (by simpa [tyOf] using rB) hn1
+    rw [wrap_of_inRange _ _ hr.1] at hv'
+    obtain ⟨p, hp, _⟩ := @band_const _ (wrap (uac (tyOf S x) (tyOf S (.lit an sp))) A) B hr hn1
+    exact ⟨p, by rw [← hv', hp]⟩
+  · obtain ⟨A, B, hA, hB, hv'⟩ := eval_bin_cop (by rfl) hV
+    obtain ⟨glit, _⟩ := annOK_bin g
+    obtain ⟨rfl, rA⟩ := lit_num glit hnum hn1 hA
+    simp only [evalBin, BinOp.isShift, Bool.false_eq_true, if_false, Option.some.injEq] at hv'
+    have hr := inRange_uac_nonneg_left (tyOf S (.lit an sp)) (tyOf S x) A (by simpa [tyOf] using rA) hn1
+    rw [wrap_of_inRange _ _ hr.1] at hv'
+    obtain ⟨p, _, hp⟩ := @band_const _ (wrap (uac (tyOf S (.lit an sp)) (tyOf S x)) B) A hr hn1
+    exact ⟨p, by rw [← hv', hp]⟩
+
+theorem bitCmpVerdict_n1 {bitop op : BinOp} {uns : Bool} {n1 n2 : Int} {b : Bool}
+    (hv : bitCmpVerdict bitop op uns n1 n2 = some b) : 0 ≤ n1 := by
+  unfold bitCmpVerdict at hv
+  split at hv
+  · simp at hv
+  · omega
+
 /-- `comparison()` on `(x & n1) op r` / `(n1 & x) op r` with the Known value on the right: the verdict holds -/
 theorem bitand_cmp_sound {S ρ a op a' x an sp l r v n1 n2 b uns}
     (hl : l = .bin a' .band x (.lit an sp) ∨ l = .bin a' .band (.lit an sp) x)
@@ -242,30 +272,21 @@ theorem bitand_cmp_sound {S ρ a op a' x an sp l r v n1 n2 b uns}
   obtain ⟨gl, gr⟩ := annOK_bin g
   obtain ⟨X, Y, hX, hY, e, _, cY⟩ := cmp_exact hs hc (Or.inr (by simp [hk])) he
   have q := known_eq gr hk hY cY
-  have hn1 : 0 ≤ n1 := by
-    unfold bitCmpVerdict at hv
-    split at hv
-    · simp at hv
-    · omega
-  have hp : ∃ p : Nat, X = ((p &&& n1.toNat : Nat) : Int) := by
-    rcases hl with rfl | rfl
-    · obtain ⟨A, B, hA, hB, hv'⟩ := eval_bin_cop (by rfl) hX
-      obtain ⟨_, glit⟩ := annOK_bin gl
-      obtain ⟨rfl, rB⟩ := lit_num glit hnum hn1 hB
-      simp only [evalBin, BinOp.isShift, Bool.false_eq_true, if_false, Option.some.injEq] at hv'
-      have hr := inRange_uac_nonneg_right (tyOf S x) (tyOf S (.lit an sp)) B (by simpa [tyOf] using rB) hn1
-      rw [wrap_of_inRange _ _ hr.1] at hv'
-      obtain ⟨p, hp, _⟩ := @band_const _ (wrap (uac (tyOf S x) (tyOf S (.lit an sp))) A) B hr hn1
-      exact ⟨p, by rw [← hv', hp]⟩
-    · obtain ⟨A, B, hA, hB, hv'⟩ := eval_bin_cop (by rfl) hX
-      obtain ⟨glit, _⟩ := annOK_bin gl
-      obtain ⟨rfl, rA⟩ := lit_num glit hnum hn1 hA
-      simp only [evalBin, BinOp.isShift, Bool.false_eq_true, if_false, Option.some.injEq] at hv'
-      have hr := inRange_uac_nonneg_left (tyOf S (.lit an sp)) (tyOf S x) A (by simpa [tyOf] using rA) hn1
-      rw [wrap_of_inRange _ _ hr.1] at hv'
-      obtain ⟨p, _, hp⟩ := @band_const _ (wrap (uac (tyOf S (.lit an sp)) (tyOf S x)) B) A hr hn1
-      exact ⟨p, by rw [← hv', hp]⟩
-  obtain ⟨p, rfl⟩ := hp
+  obtain ⟨p, rfl⟩ := band_node_val hl gl hnum (bitCmpVerdict_n1 hv) hX
   rw [e, ← q, bitAnd_verdict_sound hv hn2 p]
+
+/-- the same with the Known value on the left (`l op (x & n1)`): since e82cb03 the verdict is computed for the
+    comparator turned around, and it holds -/
+theorem bitand_cmp_sound_left {S ρ a op a' x an sp l r v n1 n2 b uns}
+    (hr : r = .bin a' .band x (.lit an sp) ∨ r = .bin a' .band (.lit an sp) x)
+    (hc : op.isCmp = true) (g : annOK S (.bin a op l r) = true) (hs : cmpSafe S (.bin a op l r) = true)
+    (hk : l.ann.known = some n2) (hn2 : 0 ≤ n2) (hnum : an.num = some n1)
+    (hv : bitCmpVerdict .band (flipOp op) uns n1 n2 = some b)
+    (he : eval S ρ (.bin a op l r) = some v) : v = b2i b := by
+  obtain ⟨gl, gr⟩ := annOK_bin g
+  obtain ⟨X, Y, hX, hY, e, cX, _⟩ := cmp_exact hs hc (Or.inl (by simp [hk])) he
+  have q := known_eq gl hk hX cX
+  obtain ⟨p, rfl⟩ := band_node_val hr gr hnum (bitCmpVerdict_n1 hv) hY
+  rw [e, ← q, ← cmpZ_flip, bitAnd_verdict_sound hv hn2 p]
 
 end Cppcheck.CondExpr
